@@ -414,8 +414,61 @@ fn c16_every_length(thorough: bool, out: &mut Out) {
     }
 }
 
+/// Several exchanges on ONE bus object: whatever the bus keeps between calls (a reply buffer, the previous
+/// message, leftover bytes) must not leak into the next exchange.
+fn c16_multi(out: &mut Out) {
+    let a = 3u16;
+    let q = Message::QueryState(Address(a));
+    let h = Message::Hello(Address(a));
+    let r1 = Message::ReportState(Address(a), State::PageLoaded);
+    let r2 = Message::AckOperation(Address(a), flipdot_core::Operation::ReceivePixels);
+    let (w1, w2) = (msg_wire(&r1), msg_wire(&r2));
+    let check = |out: &mut Out, line: String, want: Vec<String>| {
+        let i = out.case(line, true);
+        out.stat("serial.multi");
+        let got = out.impls[i].clone();
+        let parts: Vec<&str> = got.split(" ; ").collect();
+        if parts.len() != want.len() {
+            out.fail(i, format!("C16 multi-exchange run gave {} results, expected {}: {}", parts.len(), want.len(), trunc(&got)));
+            return;
+        }
+        for (k, (p, w)) in parts.iter().zip(want.iter()).enumerate() {
+            let res = p.split(" => ").nth(1).unwrap_or("").split(" rest=").next().unwrap_or("");
+            if res != w {
+                out.fail(i, format!("C16 exchange {} on the same bus object returned '{}', expected '{}' ({})", k + 1, res, w, trunc(&got)));
+                return;
+            }
+        }
+    };
+    // a reply cut by a read error at every position, then a complete exchange
+    for cut in 1..w1.len() {
+        for kind in ["e", "t"] {
+            let line = format!("serialm {} {} | d:{} {} d:{} |", show_msg(&q), show_msg(&h), hex_of(&w1[..cut]), kind, hex_of(&w2));
+            check(out, line, vec!["err".into(), format!("ok {}", show_msg(&r2))]);
+        }
+    }
+    // an undecodable reply, then a complete exchange
+    check(out, format!("serialm {} {} | d:3A5A5A0D0A d:{} |", show_msg(&q), show_msg(&q), hex_of(&w1)), vec!["err".into(), format!("ok {}", show_msg(&r1))]);
+    // two reply lines delivered in one burst: each exchange takes exactly one
+    let mut both = w1.clone();
+    both.extend_from_slice(&w2);
+    check(out, format!("serialm {} {} | d:{} |", show_msg(&q), show_msg(&h), hex_of(&both)), vec![format!("ok {}", show_msg(&r1)), format!("ok {}", show_msg(&r2))]);
+    // the same message twice: written twice
+    let g = Message::Goodbye(Address(a));
+    check(out, format!("serialm {} {} {} | d:{} |", show_msg(&g), show_msg(&g), show_msg(&q), hex_of(&w1)), vec!["ok none".into(), "ok none".into(), format!("ok {}", show_msg(&r1))]);
+    let i = out.cases.len() - 1;
+    let wire_g = hex_of(&msg_wire(&g));
+    if out.impls[i].matches(&format!("W:{}:1", wire_g)).count() != 2 {
+        let shown = out.impls[i].clone();
+        out.fail(i, format!("C16 the same message sent twice was not written twice: {}", trunc(&shown)));
+    }
+    // a failed write, then a complete exchange
+    check(out, format!("serialm {} {} | d:{} | e", show_msg(&q), show_msg(&h), hex_of(&w2)), vec!["err".into(), format!("ok {}", show_msg(&r2))]);
+}
+
 pub fn c16(thorough: bool, rng: &mut Rng, out: &mut Out) {
     c16_every_length(thorough, out);
+    c16_multi(out);
     out.rule = "every message kind (hello / query / goodbye / pixels-complete / chunk count over 5 addresses, 6 requests, 6 acks, 13 reports, unknown frames, data chunks of length 0/1/16/255/random) x reply tapes; unknown frames of every data length 0..=255 (and data chunks of every length in the thorough tier) with no reply due; (13 states, 6 acks, unknown, data, malformed, bad checksum, empty, bare CRLF) each followed by extra bytes; a write failure at the first and at a later write call; a read failure; non-trivial = every case; distinct = distinct case line".into();
     out.exhaustive_note = "kinds x reply tapes complete for the listed parameter values; data chunk cases limited (each sleeps 30 ms)".into();
     let n_sd = if thorough { 40 } else { 10 };
@@ -507,6 +560,58 @@ pub fn c18(thorough: bool, rng: &mut Rng, out: &mut Out) {
                 out.fail(i, format!("C18 30 ms pacing after the write: observed {}, required {} for {}", has30, paced_send, trunc(&tok)));
             } else if has100 != paced_recv {
                 out.fail(i, format!("C18 100 ms pacing after the reply {}: observed {}, required {}", want_reply, has100, paced_recv));
+            }
+        }
+    }
+    // several exchanges on one bus object: the 30 ms are owed between the end of a data-chunk write and the NEXT
+    // write (measured across calls, wherever the implementation chooses to wait), and every in-progress report is
+    // followed by its own 100 ms, also the second and third in a row
+    {
+        let a = 3u16;
+        let lp = Message::ReportState(Address(a), State::PageLoadInProgress);
+        let sp = Message::ReportState(Address(a), State::PageShowInProgress);
+        let pl = Message::ReportState(Address(a), State::PageLoaded);
+        let q = Message::QueryState(Address(a));
+        let cs = Message::DataChunksSent(ChunkCount(2));
+        let d1 = sd(0, &[1u8; 16]);
+        let d2 = sd(16, &[2u8; 16]);
+        let d3 = sd(32, &[0u8; 5]);
+        let runs: Vec<(Vec<Message<'static>>, Vec<Message<'static>>)> = vec![
+            (vec![d1.clone(), d2.clone(), cs.clone()], vec![]),
+            (vec![d1.clone(), q.clone()], vec![pl.clone()]),
+            (vec![d3.clone(), d3.clone(), d1.clone(), cs.clone(), q.clone()], vec![lp.clone()]),
+            (vec![q.clone(), q.clone(), q.clone()], vec![lp.clone(), lp.clone(), lp.clone()]),
+            (vec![q.clone(), q.clone(), q.clone(), q.clone()], vec![sp.clone(), lp.clone(), sp.clone(), pl.clone()]),
+            (vec![cs.clone(), q.clone(), cs.clone()], vec![pl.clone()]),
+        ];
+        for (msgs, replies) in runs {
+            let tape: Vec<u8> = replies.iter().flat_map(|r| msg_wire(r)).collect();
+            let line = format!("serialmt {} | {} |", msgs.iter().map(show_msg).collect::<Vec<_>>().join(" "), if tape.is_empty() { "d:0A".to_string() } else { format!("d:{}", hex_of(&tape)) });
+            let i = out.case(line, true);
+            out.stat("pace.multi");
+            let got = out.impls[i].clone();
+            let parts: Vec<&str> = got.split(" ; ").collect();
+            let mut ri = 0;
+            for (k, m) in msgs.iter().enumerate() {
+                let p = parts.get(k).copied().unwrap_or("");
+                let is_sd = matches!(m, Message::SendData(..));
+                let want_gap = is_sd && k + 1 < msgs.len();
+                if p.contains("G:?") || p.contains("S:?") {
+                    out.fail(i, format!("C18 ambiguous delay in exchange {}: {}", k + 1, trunc(&got)));
+                    break;
+                }
+                if p.contains(" G:30") != want_gap {
+                    out.fail(i, format!("C18 exchange {} ({}): 30 ms between the end of its write and the next write observed {}, required {}: {}", k + 1, &show_msg(m)[..2], p.contains(" G:30"), want_gap, trunc(&got)));
+                    break;
+                }
+                if expects_reply(m) {
+                    let paced = matches!(replies.get(ri), Some(Message::ReportState(_, State::PageLoadInProgress)) | Some(Message::ReportState(_, State::PageShowInProgress)));
+                    ri += 1;
+                    if p.contains(" S:100") != paced {
+                        out.fail(i, format!("C18 exchange {}: 100 ms after the reply observed {}, required {}: {}", k + 1, p.contains(" S:100"), paced, trunc(&got)));
+                        break;
+                    }
+                }
             }
         }
     }
@@ -756,6 +861,30 @@ pub fn c17(thorough: bool, rng: &mut Rng, out: &mut Out) {
             }
             if *e == Some(true) && wr.is_empty() && !r.starts_with("ok") {
                 out.fail(i, format!("C17 a decodable line must be forwarded: '{}'", r));
+            }
+        }
+    }
+    // an unterminated fragment (the line ends in end-of-stream, a timeout or a hard error instead of a line feed)
+    // is a communication error; the NEXT line is then forwarded as if nothing had happened (nothing is kept)
+    {
+        let a = 3u16;
+        let hello = enc_nl(a, 2, &[0xFF]);
+        for frag in [&b":01000302"[..], b":0100", b"\x00\xFF~", b":", b":01000302FFFB", b"\r"] {
+            for sep in ["z", "t", "e"] {
+                for split in [false, true] {
+                    let fr = if split && frag.len() > 1 { format!("d:{} d:{}", hex_of(&frag[..1]), hex_of(&frag[1..])) } else { format!("d:{}", hex_of(frag)) };
+                    let line = format!("odk 2 M,{:04X};A,{:04X} | {} {} d:{} |", a, a + 9, fr, sep, hex_of(&hello));
+                    let i = out.case(line, true);
+                    out.stat("odk.fragment-then-line");
+                    let got = out.impls[i].clone();
+                    let parts: Vec<&str> = got.split(" | ").collect();
+                    let rs_: Vec<&str> = parts.first().map(|p| p.split(" ; ").collect()).unwrap_or_default();
+                    // a complete valid frame that merely lacks its line feed at end-of-stream decodes (from_bytes accepts it)
+                    let first_ok = frag == &b":01000302FFFB"[..] && sep == "z";
+                    if rs_.len() != 2 || (!first_ok && !rs_[0].starts_with("comm w=-")) || !rs_[1].starts_with("ok w=3A") {
+                        out.fail(i, format!("C17 after an unterminated fragment the next line must be forwarded and answered: '{}'", trunc(&got)));
+                    }
+                }
             }
         }
     }
